@@ -554,7 +554,7 @@ pub fn run(args: &Args) -> ! {
     );
     rep.assume("programs are compared through the Debug form of the AST with every Span erased (spans necessarily differ between the two texts)");
     rep.assume("when neither the loop program nor its hand-written copies parse (e.g. a negative value inside an identifier) the property says nothing and the case is counted, not judged");
-    rep.assume("nested loops use distinct variable names; what happens when an inner loop re-uses the outer variable name is not stated by the property");
+    rep.assume("an inner loop that re-uses the outer variable name is judged by the statement read literally: the outer body copy has `{r}` replaced everywhere (inner body included) before the inner loop of that copy is expanded");
     rep.finish()
 }
 
